@@ -1690,6 +1690,12 @@ impl<'bump> String<'bump> {
             Unbounded => {}
         };
 
+        // Reserve room for the whole replacement first. The splice below
+        // writes byte by byte and grows the buffer in the middle of that; an
+        // allocation failure unwinds in this crate (it does not abort), and
+        // would leave part of a multi-byte character behind.
+        self.vec.reserve(replace_with.len());
+
         unsafe { self.as_mut_vec() }.splice(range, replace_with.bytes());
     }
 }
